@@ -378,6 +378,34 @@ def view_serde_cases(tier, seed):
                         yield {"kind": kind, "cfg": dict(BASE_CFG, serde=["view", how]), "op": r}
 
 
+FLAG_SPELLINGS = [1, 2, "yes", "no", "False", 1.0, -1, [0], (None,), b"0", 0, "", 0.0, [], (), b""]
+
+
+def flag_spelling_cases(tier, seed):
+    """the noreply flag and the default_noreply option are used by truth value: every truthy spelling must put the same bytes
+    on the wire as True and every falsy one (other than None, which means 'use the default') the same as False"""
+    nr_ops = [o for o in SINGLE_OPS if "noreply" in rec_for(o, "k")] + ["delete_many", "set_many", "flush_all"]
+    i = 0
+    for kind in ("client", "pooled", "hash", "hash-pooled"):
+        for op in nr_ops:
+            for sp in FLAG_SPELLINGS:
+                i += 1
+                if op == "delete_many":
+                    r = {"op": op, "keys": ["k", b"k2"]}
+                elif op == "set_many":
+                    r = {"op": op, "values": {"k": PAYLOAD, "k2": b"1"}}
+                elif op == "flush_all":
+                    r = {"op": op, "delay": i % 3}
+                else:
+                    r = rec_for(op, "k", i)
+                r.pop("noreply", None)
+                yield {"kind": kind, "cfg": dict(BASE_CFG, default_noreply=sp), "op": dict(r)}
+                yield {"kind": kind, "cfg": dict(BASE_CFG, default_noreply=bool(i & 1)), "op": dict(r, noreply=sp)}
+                if tier != "quick" or kind == "client":
+                    yield {"kind": kind, "cfg": dict(BASE_CFG, default_noreply=FLAG_SPELLINGS[(i * 7) % len(FLAG_SPELLINGS)], key_prefix=b"p:"),
+                           "op": dict(r, noreply=sp)}
+
+
 def serde_flag_cases(tier, seed):
     """a serializer that produces its own flags, combined with every explicit flags value (None = use the serializer's)"""
     i = 0
@@ -514,7 +542,8 @@ def history_cases(tier, seed):
 
 def history_strategy(tier):
     cfg = st.fixed_dictionaries({"key_prefix": st.sampled_from(HIST_PREFIXES + ["str:"]), "allow_unicode_keys": st.booleans(),
-                                 "encoding": st.sampled_from(["ascii", "utf-8"]), "default_noreply": st.booleans()})
+                                 "encoding": st.sampled_from(["ascii", "utf-8"]),
+                                 "default_noreply": st.one_of(st.booleans(), st.sampled_from(FLAG_SPELLINGS))})
     return st.fixed_dictionaries({"kind": st.sampled_from(["client", "pooled", "hash", "hash-pooled"]), "cfg": cfg,
                                   "ops": st.lists(st.sampled_from(HIST_ALPHA), min_size=2, max_size=10)})
 
@@ -536,7 +565,7 @@ def random_strategy(tier):
                         st.text(st.characters(min_codepoint=0x21, max_codepoint=0x7E), min_size=1, max_size=20))
     expire = st.one_of(st.sampled_from(INT_GOOD["expire"]), st.integers(-2 ** 63, 2 ** 63 - 1), st.sampled_from(NON_INT))
     flags = st.one_of(st.none(), st.sampled_from(INT_GOOD["flags"]), st.integers(0, 2 ** 32 - 1))
-    noreply = st.sampled_from([None, True, False])
+    noreply = st.one_of(st.sampled_from([None, True, False]), st.sampled_from([None, True, False] + FLAG_SPELLINGS))
     cas = st.one_of(st.sampled_from(INT_GOOD["cas"] + BAD_CAS), st.integers(0, 2 ** 64 - 1))
     delta = st.one_of(st.sampled_from(INT_GOOD["delta"] + NON_INT), st.integers(0, 2 ** 64 - 1))
 
@@ -564,7 +593,7 @@ def random_strategy(tier):
     prefix = st.one_of(st.just(b""), st.just(b""), st.binary(max_size=8), st.text(st.characters(min_codepoint=0x21, max_codepoint=0x7E), max_size=6),
                        st.integers(240, 250).map(lambda n: b"P" * n))
     cfg = st.fixed_dictionaries({"key_prefix": prefix, "allow_unicode_keys": st.booleans(),
-                                 "encoding": st.sampled_from(["ascii", "utf-8", "latin-1"]), "default_noreply": st.booleans()})
+                                 "encoding": st.sampled_from(["ascii", "utf-8", "latin-1"]), "default_noreply": st.one_of(st.booleans(), st.sampled_from(FLAG_SPELLINGS))})
     return st.one_of(
         st.fixed_dictionaries({"kind": st.sampled_from(["client", "pooled", "hash", "hash-pooled"]), "cfg": cfg, "op": single}),
         st.fixed_dictionaries({"kind": st.sampled_from(["client", "pooled"]), "cfg": cfg, "op": multi}))
@@ -578,6 +607,7 @@ PARTS = [
     Part("unnormalised-unicode-keys", "enum", check, cases=unicode_key_cases, exhaustive=True),
     Part("integers-and-values", "enum", check, cases=integer_cases, exhaustive=True),
     Part("serde-and-flags", "enum", check, cases=serde_flag_cases, exhaustive=True),
+    Part("flag-spellings", "enum", check, cases=flag_spelling_cases, exhaustive=True),
     Part("bytes-like-payloads", "enum", check, cases=view_serde_cases, exhaustive=True),
     Part("raw-commands", "enum", check, cases=raw_command_cases, exhaustive=True),
     Part("call-histories", "enum", check_history, cases=history_cases, exhaustive=True),
